@@ -120,7 +120,13 @@ def run(ctx):
         ctx.check('R2', 'the merge works on a copy of the pickled state', cp, f.short, 'merge-in-place', 'patches are merged into the unpickled state object itself', where=loc(f, c))
     cpf = RS.methods['current_patches']
     gi = RS.methods['get_current_patches_info']
-    ok = any(isinstance(st, ast.If) and 'i < 0' in norm(st.test) and any(isinstance(x, ast.Return) for x in st.body) for st in walk_local(gi.node))
+    # `if <iterator> < 0: return <empty frame>` - the iterator is the local read from patches_iter() (or the call itself)
+    itv = [st.targets[0].id for st in walk_local(gi.node) if isinstance(st, ast.Assign) and isinstance(st.targets[0], ast.Name) and isinstance(st.value, ast.Call) and last_attr(st.value) == 'patches_iter']
+
+    def neg_test(t):
+        return isinstance(t, ast.Compare) and len(t.ops) == 1 and isinstance(t.ops[0], ast.Lt) and isinstance(t.comparators[0], ast.Constant) and t.comparators[0].value == 0 and (
+            (isinstance(t.left, ast.Name) and t.left.id in itv) or (isinstance(t.left, ast.Call) and last_attr(t.left) == 'patches_iter'))
+    ok = any(isinstance(st, ast.If) and neg_test(st.test) and any(isinstance(x, ast.Return) for x in st.body) for st in walk_local(gi.node))
     ctx.check('R2', 'with no frame left the current patches are empty', ok, 'RemoteState.get_current_patches_info', 'no-empty-frame', 'without a current frame a stale frame is used', where=loc(gi, gi.node))
     rp = P.module('remote_pickle')
     for fn, inner in (('remote_loads', 'pickle.loads'), ('remote_load', 'pickle.load')):
@@ -178,3 +184,111 @@ def run(ctx):
               'every opt-in object, wherever it sits, pops the current frame when it is restored (child_restored has no own-frame test), but frames are only pushed for opt-in objects '
               'that are direct values of their holder\'s state: an opt-in object held in a list/dict/tuple consumes - and is patched with - the frame of its holder, '
               'so a top-level patch lands on the container-held object and not on the top-level object', where=loc(cr, cr.node))
+    check_write_back(ctx, RS, cr)
+
+
+# ---------------------------------------------------------------------------------------------------- R4
+DICT, TRUTHY = 'dict(possibly empty)', 'non-empty'
+
+
+def truth3(e, env):
+    """three-valued truth of a test under the abstract environment of a real frame; (value, mentions_role_variable)"""
+    if isinstance(e, ast.Name):
+        if e.id in env:
+            return (True if env[e.id] == TRUTHY else None), True
+        return None, False
+    if isinstance(e, ast.UnaryOp) and isinstance(e.op, ast.Not):
+        v, m = truth3(e.operand, env)
+        return (None if v is None else not v), m
+    if isinstance(e, ast.BoolOp):
+        vals = [truth3(x, env) for x in e.values]
+        m = any(x[1] for x in vals)
+        vs = [x[0] for x in vals]
+        if isinstance(e.op, ast.And):
+            return (False if False in vs else (None if None in vs else True)), m
+        return (True if True in vs else (None if None in vs else False)), m
+    if isinstance(e, ast.Call) and isinstance(e.func, ast.Name) and e.func.id == 'bool' and len(e.args) == 1:
+        return truth3(e.args[0], env)
+    if isinstance(e, ast.Call) and isinstance(e.func, ast.Name) and e.func.id == 'isinstance' and len(e.args) == 2 and isinstance(e.args[0], ast.Name) and e.args[0].id in env:
+        if norm(e.args[1]) == 'dict' and env[e.args[0].id] == DICT:
+            return True, True
+        return None, True
+    if isinstance(e, ast.Compare) and len(e.ops) == 1:
+        l, r, op = e.left, e.comparators[0], e.ops[0]
+        if isinstance(l, ast.Name) and l.id in env and isinstance(r, ast.Constant) and r.value is None and isinstance(op, (ast.Is, ast.IsNot, ast.Eq, ast.NotEq)):
+            return isinstance(op, (ast.IsNot, ast.NotEq)), True      # every part of a real frame is not None
+        a, ma = truth3(l, env)
+        b, mb = truth3(r, env)
+        if (ma or mb) and isinstance(op, (ast.Eq, ast.NotEq)) and all(isinstance(x, ast.Call) and isinstance(x.func, ast.Name) and x.func.id == 'bool' for x in (l, r)):
+            if a is None or b is None:
+                return None, True
+            return ((a == b) if isinstance(op, ast.Eq) else (a != b)), True
+        return None, any(isinstance(x, ast.Name) and x.id in env for x in ast.walk(e))
+    return None, any(isinstance(x, ast.Name) and x.id in env for x in ast.walk(e))
+
+
+def check_write_back(ctx, RS, cr):
+    """R4 producer/consumer agreement on what a real frame is.  break_patches pushes a real frame (index, name, sub) for every
+    addressed child whose patch `sub` is a dict - any dict, the empty one included.  When such a child has been restored,
+    child_restored must put the restored object back under its name in the parent's patches (the parent's own
+    state.update(patches) would otherwise overwrite the child with the raw patch value).  The tests on the way to that
+    write-back are evaluated three-valued under the abstract environment of a real frame: own patches = a dict that may be
+    empty, name = a non-empty string, parent patches = a dict that contains the name (non-empty), none of them None."""
+    bp = RS.methods['break_patches']
+    ctx.used(bp)
+    # producer predicate: the real frame constructor is guarded by isinstance(<sub>, dict) only
+    real = [c for c in calls_in(bp.node) if last_attr(c) == '_patches_t' and len(c.args) == 3 and not (isinstance(c.args[1], ast.Constant) and c.args[1].value is None)]
+    ctx.require(len(real) == 1, 'break_patches: the construction of a real frame was not found')
+    sub = real[0].args[2]
+    pm = parent_map(bp.node)
+    guards = []
+    cur = real[0]
+    while cur in pm:
+        cur = pm[cur]
+        if isinstance(cur, ast.If):
+            guards.append(norm(cur.test))
+    ok = any(g == f'isinstance({norm(sub)}, dict)' for g in guards)
+    ctx.check('R4', 'break_patches pushes a real frame for every dict-valued patch of a child (any dict)', ok and not any(g in (norm(sub), f'{norm(sub)} and isinstance({norm(sub)}, dict)') for g in guards),
+              'RemoteState.break_patches', 'real-frame-guard:' + ';'.join(guards), f'the real frame of a child is pushed under {guards}', where=loc(bp, real[0]))
+    # consumer: role variables of child_restored
+    roles = {}
+    for st in walk_local(cr.node):
+        if isinstance(st, ast.Assign) and len(st.targets) == 1 and isinstance(st.targets[0], ast.Name) and isinstance(st.value, ast.Call):
+            r = {'current_patches': 'own', 'current_child_name': 'name', 'parent_patches': 'parent'}.get(last_attr(st.value))
+            if r:
+                roles.setdefault(r, []).append(st.targets[0].id)
+    ctx.require(all(len(roles.get(r, [])) == 1 for r in ('own', 'name', 'parent')), 'child_restored: the frame parts (own patches, name, parent patches) are not each read once')
+    OWN, NAME, PARENT = roles['own'][0], roles['name'][0], roles['parent'][0]
+    env = {OWN: DICT, NAME: TRUTHY, PARENT: TRUTHY}
+    g = ctx.an.cfg(cr, RS)
+    wb = [n for n in g.nodes if n.stmt is not None and isinstance(n.stmt, ast.Assign) and n.part in (None, 'store') and isinstance(n.stmt.targets[0], ast.Subscript)
+          and is_name(n.stmt.targets[0].value, PARENT) and is_name(n.stmt.targets[0].slice, NAME) and is_name(n.stmt.value, cr.params[1] if len(cr.params) > 1 else 'obj')]
+    ctx.check('R4', 'child_restored puts the restored child back under its name in the parent\'s patches', bool(wb), 'RemoteState.child_restored', 'no-write-back',
+              'child_restored does not hand the restored child back to its parent\'s patches: the parent\'s state.update(patches) replaces the child by the raw patch dict', where=loc(cr, cr.node))
+    if not wb:
+        return
+    wid = {n.id for n in wb}
+    undecided = []
+
+    def feasible(e):
+        if not is_flow(e) or e.kind in ('exc', 'reraise'):
+            return False
+        if e.src.kind == 'test' and e.kind in ('true', 'false') and isinstance(e.src.stmt, (ast.If, ast.While)):
+            v, m = truth3(e.src.stmt.test, env)
+            if v is None and not m:
+                return True          # a test on something else: not decided by this rule, both sides kept
+            if v is None:
+                undecided.append(norm(e.src.stmt.test))
+                return True
+            return v == (e.kind == 'true')
+        return True
+    p = g.find_path([g.entry], lambda n: n is g.exit, edge_ok=feasible, node_ok=lambda n: n.id not in wid)
+    tests = sorted({norm(e.src.stmt.test) for e in (p or []) if e.src.kind == 'test' and isinstance(e.src.stmt, (ast.If, ast.While)) and truth3(e.src.stmt.test, env) == (None, True)})
+    ctx.sample({'rule': 'C15.R4', 'abstract_environment_of_a_real_frame': {OWN: DICT, NAME: TRUTHY + ' str', PARENT: TRUTHY + ' dict'},
+                'tests_in_child_restored': {norm(n.stmt.test): str(truth3(n.stmt.test, env)[0]) for n in g.nodes if n.kind == 'test' and isinstance(n.stmt, ast.If)}})
+    ctx.check('R4', 'for every real frame (any dict patch, the empty one included) child_restored reaches the write-back', p is None, 'RemoteState.child_restored',
+              'write-back-skipped-for-real-frame:' + ';'.join(tests),
+              f'child_restored can return without writing the restored child back although break_patches pushed a real frame for it: the test(s) {tests} are not implied by '
+              '"the frame is real" (a dict patch may be empty) - the producer tests the type, the consumer the truth value; for a patch {name: {}} the parent then overwrites the child with {}',
+              where=loc(cr, cr.node), path=path_str(p or []))
+
